@@ -237,6 +237,24 @@ Definition set_unm (s : st) : st :=
 
 Definition lk (s : st) (p : path) : option node := look (fs s) p.
 
+(* Some proper prefix of the path is a symbolic link (e.g. a file inside a
+   directory that an earlier output already moved to outs/ and linked back):
+   the kernel follows it, the model's lookups are by exact path and do not -
+   such a value is outside the modelled fragment. *)
+Fixpoint through_link_from (s : st) (base rest : path) : bool :=
+  match rest with
+  | [] => false
+  | c :: r =>
+      match r with
+      | [] => false
+      | _ => match lk s (base ++ [c]) with
+             | Some (NLink _) => true
+             | _ => through_link_from s (base ++ [c]) r
+             end
+      end
+  end.
+Definition through_link (s : st) (p : path) : bool := through_link_from s [] p.
+
 (* os.MkdirAll(render (base ++ rest)) where base exists and is a directory *)
 Fixpoint mkdirs_from (base rest : path) (s : st) : st * bool :=
   match rest with
@@ -323,6 +341,7 @@ Section Move.
         match parse_abs str with
         | None => (v, set_unm s)
         | Some fp =>
+            if through_link s fp then (v, set_unm s) else
             match lk s fp with
             | None =>
                 (* the file is not there.  Either the stage did not create
